@@ -150,12 +150,14 @@ class State:
     return self.with_heap(self.heap.set(name, term))
 
   def alloc(self, clsname):
-    """Allocate a fresh reference of class `clsname`; returns (state, ref Int term)."""
-    r = fresh('new', I)
+    """Allocate a fresh reference of class `clsname`; returns (state, ref Int term).
+
+    The reference is the allocation counter itself (alloc@0 + n), so that distinct
+    allocations are syntactically distinct and select-over-store chains simplify."""
     h = self.heap
-    s = self.assume(r == h.alloc)
-    h = h.set('alloc', h.alloc + 1)
-    s = s.assume(cls_fn(r) == z3.IntVal(CLASSES[clsname]))
+    r = z3.simplify(h.alloc)
+    h = h.set('alloc', z3.simplify(r + 1))
+    s = self.assume(cls_fn(r) == z3.IntVal(CLASSES[clsname]))
     return s.with_heap(h), r
 
 
